@@ -95,6 +95,26 @@ theorem C24_index_in_range {σ : Type} (G : Gen σ) (hG : ∀ g n, 0 < n → (G.
           injection h with h; omega
       omega
 
+/-- **The DPoS v2 selection** (`getRandomDposV2Producers`, private generator): the selected order
+    is the same for every schedule of the environment and every state of the shared generator. -/
+theorem C24_v2_local_det {σ α : Type} (G : Gen σ) (s : Int) (keys : List α) (count : Nat)
+    (sched sched' : List EnvOp) (g0 g0' : σ) :
+    randomV2 G .local s keys count sched g0 = randomV2 G .local s keys count sched' g0' := rfl
+
+/-- with the process-global generator the same selection depends on the schedule (witness: the LCG,
+    five keys, two seats, one environment draw) -/
+theorem C24_v2_global_witness :
+    ∃ sched, randomV2 lcg .global 42 [1, 2, 3, 4, 5] 2 sched 0 ≠ randomV2 lcg .global 42 [1, 2, 3, 4, 5] 2 [] 0 :=
+  ⟨[.draw 7], by decide⟩
+
+/-- when there are no more candidates than seats nothing is drawn and the order is the sorted one -/
+theorem C24_v2_no_draw {σ α : Type} (G : Gen σ) (kind : Kind) (s : Int) (keys : List α) (count : Nat)
+    (sched : List EnvOp) (g0 : σ) (h : keys.length ≤ count) :
+    randomV2 G kind s keys count sched g0 = keys := by
+  unfold randomV2
+  have : ¬ keys.length > count := by omega
+  simp [this]
+
 /-! ## 2. producer order -/
 
 /-- The sorted order is unique: two lists with the same producers (any input order — the producers
